@@ -136,8 +136,12 @@ Definition truthy (r : res) : option bool :=
 Definition rnot (r : res) : res := match r with RB b => RB (negb b) | RObj => RB false | RErr => RErr end.
 
 (* the special named spaces the directional comparison mentions, by table id *)
+(* [dir_all_any]: DirectionalSobolevSpace.__lt__ tests all(>=) and any(>) (repaired) instead of any(>);
+   [unknown_raises]: it raises for HDivDiv/HEin/HCurlDiv instead of returning the exception object.
+   Both flags are detected on the real code on every run (and validated by the exhaustive correspondence). *)
 Record specials := { id_L2 : nat; id_H1 : nat; id_H2 : nat; id_H3 : nat; id_HInf : nat;
-                     id_HDiv : nat; id_HCurl : nat; unknown_ids : list nat }.
+                     id_HDiv : nat; id_HCurl : nat; unknown_ids : list nat;
+                     dir_all_any : bool; unknown_raises : bool }.
 Section Named.
 Variable S : specials.
 Variable T : ntable.
@@ -167,12 +171,14 @@ Definition lt_method (x y : sp) : res :=
   match x, y with
   | Named a, Named b => RB (mem (ns_id b) (ns_parents a))
   | Named _, Dir _ => RErr                    (* unhashable DirectionalSobolevSpace in frozenset *)
-  | Dir a, Dir b => RB (dir_lt_impl a b)
+  | Dir a, Dir b => RB (if dir_all_any S then dir_lt_spec a b else dir_lt_impl a b)
   | Dir a, Named b =>
       if Nat.eqb (ns_id b) (id_HDiv S) || Nat.eqb (ns_id b) (id_HCurl S)
       then RB (forallb (fun o => ord_geb o (Fin 1)) a)
-      else if mem (ns_id b) (unknown_ids S) then RObj     (* RETURNS a NotImplementedError instance *)
-      else RB (existsb (fun o => ord_gtb o (ns_order b)) a)
+      else if mem (ns_id b) (unknown_ids S)
+      then (if unknown_raises S then RErr else RObj)     (* RETURNS a NotImplementedError instance *)
+      else RB ((if dir_all_any S then forallb (fun o => ord_geb o (ns_order b)) a else true)
+               && existsb (fun o => ord_gtb o (ns_order b)) a)
   end.
 (* functools.total_ordering: _gt_from_lt, _le_from_lt, _ge_from_lt *)
 Definition rand_not_and (r : res) (e : res) : res :=      (* not r and e *)
